@@ -152,19 +152,26 @@ impl Snapshot {
 	/// This is a helper method used by both iterators and optimized operations
 	/// like count
 	pub(crate) fn collect_iter_state(&self) -> Result<IterState> {
+		Self::collect_iter_state_from(&self.core)
+	}
+
+	/// Collects the iterator state without needing a `Snapshot` value. Building a
+	/// temporary `Snapshot` just to call the method above would un-register the
+	/// caller's sequence number from the snapshot tracker when the temporary is dropped.
+	pub(crate) fn collect_iter_state_from(core: &Core) -> Result<IterState> {
 		// Lock order: active_memtable -> level_manifest -> immutable_memtables, the same
 		// order flush and compaction use (they nest manifest -> immutable).
-		let active = guardian::ArcRwLockReadGuardian::take(Arc::clone(&self.core.active_memtable))?;
+		let active = guardian::ArcRwLockReadGuardian::take(Arc::clone(&core.active_memtable))?;
 		let manifest =
-			guardian::ArcRwLockReadGuardian::take(Arc::clone(&self.core.level_manifest))?;
+			guardian::ArcRwLockReadGuardian::take(Arc::clone(&core.level_manifest))?;
 		let immutable =
-			guardian::ArcRwLockReadGuardian::take(Arc::clone(&self.core.immutable_memtables))?;
+			guardian::ArcRwLockReadGuardian::take(Arc::clone(&core.immutable_memtables))?;
 
 		Ok(IterState {
 			active: active.clone(),
 			immutable: immutable.iter().map(|entry| Arc::clone(&entry.memtable)).collect(),
 			levels: manifest.levels.clone(),
-			versioned_index: self.core.versioned_index.clone(),
+			versioned_index: core.versioned_index.clone(),
 		})
 	}
 
@@ -918,12 +925,7 @@ pub(crate) struct SnapshotIterator<'a> {
 impl SnapshotIterator<'_> {
 	/// Creates a new iterator over a specific key range
 	fn new_from(core: Arc<Core>, seq_num: u64, range: InternalKeyRange) -> Result<Self> {
-		// Create a temporary snapshot to use the helper method
-		let snapshot = Snapshot {
-			core: Arc::clone(&core),
-			seq_num,
-		};
-		let iter_state = snapshot.collect_iter_state()?;
+		let iter_state = Snapshot::collect_iter_state_from(&core)?;
 
 		let merge_iter = KMergeIterator::new_from(iter_state, range);
 
